@@ -18,6 +18,7 @@ type RDN struct {
 type Raw struct {
 	Kind  string // "binary" | "null" | "empty"
 	Bytes []byte `json:",omitempty"`
+	Wrap  int    `json:",omitempty"` // > 0: the base64 text is broken into lines of this many characters (as base64(1) and openssl write it)
 }
 
 func Bin(b []byte) *Raw { return &Raw{Kind: "binary", Bytes: b} }
@@ -29,7 +30,16 @@ func (r *Raw) Text() string {
 	case "empty":
 		return "!empty"
 	}
-	return "!binary:" + base64.StdEncoding.EncodeToString(r.Bytes)
+	b64 := base64.StdEncoding.EncodeToString(r.Bytes)
+	if r.Wrap > 0 {
+		var lines []string
+		for len(b64) > r.Wrap {
+			lines = append(lines, b64[:r.Wrap])
+			b64 = b64[r.Wrap:]
+		}
+		b64 = strings.Join(append(lines, b64), "\n")
+	}
+	return "!binary:" + b64
 }
 
 // Value returns the bytes the documentation promises for this raw form.
